@@ -3,6 +3,8 @@ from __future__ import annotations
 
 import z3
 
+from typing import List
+
 from vf import sf
 from vf.common import Check
 
@@ -195,6 +197,11 @@ def main() -> int:
     ob('union-1', lambda: union([A]), post_union([a]), 'union')
     ob('union-2', lambda: union([A, B]), post_union([a, b]), 'union')
     ob('union-3', lambda: union(iter([A, B, C])), post_union([a, b, c]), 'union')
+    more = [z3.BitVec(f'u{i}', W) for i in range(8)]
+    MORE = [sf.SymFlag(t) for t in more]
+    ob('union-7', lambda: union(list(MORE[:7])), post_union(more[:7]), 'union', 7)
+    ob('union-8-generator', lambda: union(x for x in MORE), post_union(more), 'union', 8)
+    ob('union-5-with-repeats', lambda: union([MORE[0], MORE[1], MORE[0], MORE[2], MORE[1]]), post_union([more[0], more[1], more[0], more[2], more[1]]), 'union', 3)
     ob('union-mixed-real', lambda: union([A, DataType.NUMBER, B]), post_union([a, z3.BitVecVal(DataType.NUMBER.value, W), b]), 'union')
 
     def post_lub(out):
@@ -206,57 +213,159 @@ def main() -> int:
 
     ob('union-least-upper-bound', lambda: union([A, B]), post_lub, 'union')
 
-    total_paths = 0
-    for name, fn, post, replay_fn, _ in obligations:
-        paths, ctx = sf.explore(fn, W)
-        total_paths += len(paths)
-        ck.query('unsat', ctx.solver_s, 0)
-        ok = True
-        # the paths must cover everything: disjunction of pcs is valid
-        v, m, dt = sf.valid(z3.Or(*[pc for pc, _ in paths]))
-        ck.query(v, dt)
-        if v != 'unsat':
-            ck.undecided(f'{name}: path conditions do not cover the domain ({v})')
-            ok = False
-        for pc, out in paths:
-            v, m, dt = sf.valid(post(out), [pc])
-            ck.query(v, dt)
-            if v == 'unsat':
-                continue
-            ok = False
-            if v == 'unknown':
-                ck.undecided(f'{name}: z3 unknown')
-                continue
-            vals = [m.eval(x, model_completion=True).as_long() for x in (a, b, c)]
-            # replay on the real enum
-            desc = f'{name}: a={DataType(vals[0])!r} b={DataType(vals[1])!r} c={DataType(vals[2])!r} -> {out[0]} {out[1]}'
-            rep = None
-            if replay_fn == 'cast':
-                rep = concrete_replay('cast', vals[:2])
-            elif replay_fn == 'can_be':
-                rep = concrete_replay('can_be', vals[:2])
-            ck.counterexample(f'law:{name}', desc, {'kind': 'law', 'law': name, 'values': vals, 'real_outcome': rep})
-        ck.obligation(ok)
-        ck.sample({'obligation': name, 'paths': len(paths), 'holds': ok})
+    proxy_gaps: List[str] = []
+    SYMS = {'a': A, 'b': B, 'c': C, 'a2': A2}
+    SYMS.update({f'u{i}': MORE[i] for i in range(8)})
 
-    for name, f1, f2, claim, pre in pair_obs:
-        p1, c1 = sf.explore(f1, W)
-        p2, c2 = sf.explore(f2, W)
-        total_paths += len(p1) + len(p2)
-        ck.query('unsat', c1.solver_s + c2.solver_s, 0)
-        r1, v1, o1 = outcome_terms(p1)
-        r2, v2, o2 = outcome_terms(p2)
-        v, m, dt = sf.valid(claim(r1, v1, o1, r2, v2, o2), [pre] if pre is not None else [])
-        ck.query(v, dt)
-        ok = v == 'unsat'
-        if v == 'sat':
-            vals = [m.eval(x, model_completion=True).as_long() for x in (a, b, c, a2)]
-            ck.counterexample(f'law:{name}', f'{name} fails at a={vals[0]} b={vals[1]} c={vals[2]} a2={vals[3]}',
-                              {'kind': 'law', 'law': name, 'values': vals})
-        elif v == 'unknown':
-            ck.undecided(f'{name}: z3 unknown')
-        ck.obligation(ok)
-        ck.sample({'obligation': name, 'paths': [len(p1), len(p2)], 'holds': ok})
+    def used_names(name):
+        if name.startswith('union-7'):
+            return [f'u{i}' for i in range(7)]
+        if name.startswith('union-8'):
+            return [f'u{i}' for i in range(8)]
+        if name.startswith('union-5'):
+            return ['u0', 'u1', 'u2']
+        return ['a', 'b', 'c']
+
+    def concrete_outcome(fn, env):
+        """run the obligation's call on the real enum: the SymFlag objects are given concrete bit patterns for the duration"""
+        saved = {k: v.t for k, v in SYMS.items()}
+        try:
+            for k, v in SYMS.items():
+                v.t = z3.BitVecVal(env.get(k, 0), W)
+            real_args = {k: DataType(env.get(k, 0)) for k in SYMS}
+            return run_real(fn, real_args)
+        finally:
+            for k, v in SYMS.items():
+                v.t = saved[k]
+
+    def run_real(fn, real_args):
+        # re-evaluate the obligation's lambda with the proxies swapped for real members (closure cells are rebound)
+        import types as _t
+        cells = fn.__closure__ or ()
+        names = fn.__code__.co_freevars
+        new_cells = []
+        for nm, cell in zip(names, cells):
+            v = cell.cell_contents
+            if isinstance(v, sf.SymFlag):
+                key = [k for k, sv in SYMS.items() if sv is v][0]
+                new_cells.append(_t.CellType(real_args[key]))
+            elif isinstance(v, list) and v and all(isinstance(x, sf.SymFlag) for x in v):
+                new_cells.append(_t.CellType([real_args[[k for k, sv in SYMS.items() if sv is x][0]] for x in v]))
+            else:
+                new_cells.append(cell)
+        g = _t.FunctionType(fn.__code__, fn.__globals__, fn.__name__, fn.__defaults__, tuple(new_cells))
+        try:
+            return ('ret', g())
+        except Exception as e:
+            return ('raise', type(e).__name__)
+
+    def explore_all(obligations, pair_obs):
+        total_paths = 0
+        for name, fn, post, replay_fn, _ in obligations:
+            paths, ctx = sf.explore(fn, W)
+            total_paths += len(paths)
+            ck.query('unsat', ctx.solver_s, 0)
+            ok = True
+            # the paths must cover everything: disjunction of pcs is valid
+            v, m, dt = sf.valid(z3.Or(*[pc for pc, _ in paths]))
+            ck.query(v, dt)
+            if v != 'unsat':
+                ck.undecided(f'{name}: path conditions do not cover the domain ({v})')
+                ok = False
+            for pc, out in paths:
+                v, m, dt = sf.valid(post(out), [pc])
+                ck.query(v, dt)
+                if v == 'unsat':
+                    continue
+                ok = False
+                if v == 'unknown':
+                    ck.undecided(f'{name}: z3 unknown')
+                    continue
+                env = {str(x): m.eval(x, model_completion=True).as_long() for x in [a, b, c, a2] + more}
+                vals = [env[str(x)] for x in (a, b, c)]
+                # replay: the same law on the REAL enum with the model's values, judged by the same post-condition
+                real = concrete_outcome(fn, env)
+                holds = z3.simplify(z3.substitute(post(real), *[(x, z3.BitVecVal(env[str(x)], W)) for x in [a, b, c, a2] + more]))
+                if z3.is_true(holds):
+                    # the proxies behaved differently from the real enum on this path: no verdict from SF here
+                    proxy_gaps.append(name)
+                    ck.engine('SF', proxy_gap=name)
+                    break
+                desc = f'{name}: ' + ' '.join(f'{k}={DataType(v)!r}' for k, v in env.items() if k in used_names(name)) + f' -> real outcome {real[0]} {real[1]!r}'
+                ck.counterexample(f'law:{name}', desc, {'kind': 'law', 'law': name, 'values': vals, 'env': env, 'real_outcome': [real[0], str(real[1])]})
+            ck.obligation(ok)
+            ck.sample({'obligation': name, 'paths': len(paths), 'holds': ok})
+
+        for name, f1, f2, claim, pre in pair_obs:
+            p1, c1 = sf.explore(f1, W)
+            p2, c2 = sf.explore(f2, W)
+            total_paths += len(p1) + len(p2)
+            ck.query('unsat', c1.solver_s + c2.solver_s, 0)
+            r1, v1, o1 = outcome_terms(p1)
+            r2, v2, o2 = outcome_terms(p2)
+            v, m, dt = sf.valid(claim(r1, v1, o1, r2, v2, o2), [pre] if pre is not None else [])
+            ck.query(v, dt)
+            ok = v == 'unsat'
+            if v == 'sat':
+                vals = [m.eval(x, model_completion=True).as_long() for x in (a, b, c, a2)]
+                env = dict(zip(('a', 'b', 'c', 'a2'), vals))
+                # replay both sides on the real enum and judge them with the same claim
+                def as_terms(o):
+                    kind, val = o
+                    if kind == 'raise':
+                        return (z3.BoolVal(val == 'TypeError'), z3.BitVecVal(0, W), z3.BoolVal(val != 'TypeError'))
+                    return (z3.BoolVal(False), z3.BitVecVal(val.value, W), z3.BoolVal(False))
+                real1, real2 = concrete_outcome(f1, env), concrete_outcome(f2, env)
+                if z3.is_true(z3.simplify(claim(*as_terms(real1), *as_terms(real2)))):
+                    proxy_gaps.append(name)
+                    ck.engine('SF', proxy_gap=name)
+                    continue
+                ck.counterexample(f'law:{name}', f'{name} fails at a={vals[0]} b={vals[1]} c={vals[2]} a2={vals[3]}',
+                                  {'kind': 'law', 'law': name, 'values': vals})
+            elif v == 'unknown':
+                ck.undecided(f'{name}: z3 unknown')
+            ck.obligation(ok)
+            ck.sample({'obligation': name, 'paths': [len(p1), len(p2)], 'holds': ok})
+
+        return total_paths
+
+    # `x in y` with a REAL member on the left-hand container and a proxy inside is answered by enum.Flag.__contains__, which refuses
+    # non-members: for the duration of the explorations the live class gets a __contains__ that forwards proxies to the proxy's own
+    # (bitwise) containment and everything else to enum.Flag.__contains__ (removed again below; not a change to /repo)
+    import enum as _enum
+
+    def _contains(self, other):
+        if isinstance(other, sf.SymFlag):
+            return other._fork((other.t & self.value) == other.t)
+        return _enum.Flag.__contains__(self, other)
+
+    had_own = '__contains__' in DataType.__dict__
+    if not had_own:
+        type.__setattr__(DataType, '__contains__', _contains)
+    try:
+        total_paths = explore_all(obligations, pair_obs)
+    finally:
+        if not had_own:
+            type.__delattr__(DataType, '__contains__')
+    for g in proxy_gaps:
+        ck.undecided(f'{g}: the bit-vector proxies cannot execute this code shape (their outcome differs from the real enum on the same values)')
+    # long iterables (concrete: the length, not the values, is what matters; outside the symbolic bound of 8 operands)
+    import itertools as _it
+    base = [members[n] for n in base_names]
+    bad_long = None
+    for n in (100, 1500, 20000):
+        seq = [base[i % 3] for i in range(n)]
+        for mk in (lambda q: q, lambda q: iter(q), lambda q: (x for x in q)):
+            try:
+                got = DataType.union(mk(seq))
+                if got.value != (base[0] | base[1] | base[2]).value:
+                    bad_long = bad_long or f'union of {n} operands = {got!r}'
+            except Exception as e:
+                bad_long = bad_long or f'union of {n} operands raised {type(e).__name__}'
+    ck.obligation(bad_long is None, 1)
+    if bad_long:
+        ck.counterexample('law:union-long', bad_long, {'kind': 'law', 'law': 'union-long'})
+    ck.bound('union', 'symbolic: 0..3, 7 and 8 operands with arbitrary type sets (list, iterator, generator, repeats, mixed with real members); concrete: 100 / 1500 / 20000 operands')
 
     ck.engine('SF', paths=total_paths)
     ck.coverage['checker_cmd'] = './check C20'
